@@ -3,12 +3,15 @@ mod c15;
 mod files;
 mod opts;
 mod probe;
+#[path = "../repro/push_no_offset_index.rs"]
+mod repro_push_no_offset_index;
 fn main() {
     let ctx = vcore::Ctx::from_args();
     match ctx.prop.as_str() {
         "C06" => c06::run(&ctx),
         "C15" => c15::run(&ctx),
         "PROBE" => probe::run(),
+        "REPRO-push-no-offset-index" => repro_push_no_offset_index::main(),
         other => {
             eprintln!("MACHINERY: vk-pqread does not serve property {other:?}");
             std::process::exit(2)
